@@ -22,22 +22,36 @@ Reference semantics = the doc comment of each function + the C function it stand
   strnterminate_s         "will terminate the string if a null is not encountered before dmax characters ...
                           the dmax character is set to zero ... The string length is also returned"; size_t
                           return, violations (the @pre list) go to the handler only.
+  wcslwr_s(src,slen)      "Scans the string converting uppercase characters to simple lowercase, leaving all other
+                          characters unchanged.  The scanning stops at the first null or after slen characters.  The
+                          conversion is determined by the LC_CTYPE category setting of the locale ... via towlower()".
+                          The harness runs in the "C" locale: the 26 ASCII capitals, nothing else (reference = the
+                          C standard's "C" locale, not the libc under test).
+  wcsupr_s(src,slen)      the same towards uppercase, "It converts only single chars via towupper()", also "determined
+                          by the LC_CTYPE category setting of the locale".  Two readings are kept apart (o_C06 below):
+                          the "C" locale result (ASCII only) and the result of towupper() in a UTF-8 locale (taken
+                          from the running libc, independent of the library); a cell that is neither is `wrong-result`,
+                          one that is the UTF-8 result in the "C" locale is `locale-ignored`.
+      both: "@retval EOK on successful operation or slen = 0", ESNULLP "when src is NULL pointer", ESLEMAX "when
+      slen > RSIZE_MAX_WSTR", EOVERFLOW "when slen > size of src" (object size known; in bytes).  No ESZEROL, nothing
+      is promised about termination or about cells behind the string (not PRODUCING, no slack clause).
   common runtime-constraints: dest != NULL (ESNULLP), dmax != 0 (ESZEROL), dmax <= RSIZE_MAX_(W)STR (ESLEMAX),
   dmax <= object size when known (EOVERFLOW), value <= 255 / _UNICODE_MAX (ESLEMAX).
 """
-import itertools
+import itertools, os, subprocess, tempfile, shutil, unicodedata
 from proto import Op, Region, ptr
 from gens import (X, LIM, cstr, bosarg, EOK, ESNULLP, ESZEROL, ESLEMAX, ESNOSPC, ESUNTERM, EOVERFLOW)
 from oracles import Fail, usable_dest, dest_cells
 
 NARROW = ["strset_s", "strnset_s", "strzero_s", "strtolowercase_s", "strtouppercase_s", "strljustify_s",
           "strremovews_s", "strnterminate_s"]
-WIDE = ["wcsset_s", "wcsnset_s"]
+WIDE = ["wcsset_s", "wcsnset_s", "wcslwr_s", "wcsupr_s"]
 WIDTH = dict([(f, 1) for f in NARROW] + [(f, 4) for f in WIDE])
 HAS_VALUE = {"strset_s", "strnset_s", "wcsset_s", "wcsnset_s"}
 HAS_N = {"strnset_s", "wcsnset_s"}
 SETS = HAS_VALUE | {"strzero_s"}
 CASE = {"strtolowercase_s", "strtouppercase_s"}
+WCASE = {"wcslwr_s", "wcsupr_s"}                       # (src, slen): slen == 0 is EOK, not a violation
 WS = {"strljustify_s", "strremovews_s"}
 PRODUCING = WS | {"strnterminate_s", "strzero_s"}   # documented to leave a (terminated / nulled) string
 SLACKDOC = SETS                                        # "... all elements following the terminating NUL are nulled"
@@ -46,9 +60,12 @@ SP, TAB, NL = 0x20, 0x09, 0x0A
 
 
 # ------------------------------------------------------------------ op construction
-def mk(fn, cells, dmax, doff=0, flush="r", bos=None, value=0x41, n=None, dnull=False, **extra):
-    """dest = cell `doff` of one region; the object is everything from there to the region's end"""
+def mk(fn, cells, dmax, doff=0, flush="r", bos=None, value=0x41, n=None, dnull=False, bosbytes=None, **extra):
+    """dest = cell `doff` of one region; the object is everything from there to the region's end.
+    bosbytes: the object size handed over in BYTES (wide functions: sizes that are no multiple of the cell)"""
     w = WIDTH[fn]
+    if bosbytes is not None:
+        bos = bosbytes // w if bosbytes % w == 0 else bosbytes / w
     cells = list(cells)
     objsize = len(cells) - doff
     d = "null" if dnull else ptr(0, doff)
@@ -58,7 +75,7 @@ def mk(fn, cells, dmax, doff=0, flush="r", bos=None, value=0x41, n=None, dnull=F
         args.append(value)
     if fn in HAS_N:
         args.append(n if n is not None else dmax)
-    args.append(bosarg(bos, w))
+    args.append(bosarg(bos, w) if bosbytes is None else str(bosbytes))
     meta = dict(fam="inplace", fn=fn, w=w, dest=None if dnull else (0, doff), dmax=dmax, bos=bos, objsize=objsize,
                 value=value if fn in HAS_VALUE else None, n=(n if n is not None else dmax) if fn in HAS_N else None,
                 prior=cells[doff:], src=None, flush=flush, doff=doff,
@@ -104,6 +121,31 @@ def strings(alpha, maxlen):
 
 CASE_ALPHA = [0x40, 0x41, 0x5A, 0x5B, 0x60, 0x61, 0x7A, 0x7B, 0xC1, 0xE1]
 WS_ALPHA = [SP, TAB, 0x61, NL]
+# wide case mappers: ASCII both cases, Latin-1 (ä, ß), a titlecase digraph (ǆ), Greek final sigma, a non-BMP small letter
+# (Deseret), the first cell value that is no code point, a negative wchar_t whose low byte is 'a', all ones
+WC_ALPHA = [0x41, 0x61, 0xE4, 0xDF, 0x1C6, 0x3C2, 0x10437, 0x110000, 0x80000061, 0xFFFFFFFF, 0x5A, 0x7A]
+# boundaries of every range test of the mappers, the special mappings of the library's table (ß ÿ ı ſ µ, the
+# DŽ/Dž/dž LJ/Lj/lj NJ/Nj/nj DZ/Dz/dz triples, final sigma and the Greek symbol variants, ẛ ẞ ι Ω K Å, Georgian incl. the
+# punctuation inside its block, Cherokee both cases, Ā/ā, combining ypogegrammeni, Vithkuqi with its holes, Osage, Old
+# Hungarian, Warang Citi, Medefaidrin, Adlam), non-letters, and cells that are no code points
+WC_SPECIAL = [0x40, 0x41, 0x5A, 0x5B, 0x60, 0x61, 0x7A, 0x7B, 0x7F, 0x80, 0xAA, 0xB5, 0xBA, 0xBF, 0xC0, 0xD6, 0xD7, 0xD8, 0xDE, 0xDF,
+              0xE0, 0xF6, 0xF7, 0xF8, 0xFE, 0xFF, 0x100, 0x101, 0x130, 0x131, 0x149, 0x178, 0x17F, 0x180, 0x1C4, 0x1C5, 0x1C6,
+              0x1C7, 0x1C8, 0x1C9, 0x1CA, 0x1CB, 0x1CC, 0x1F0, 0x1F1, 0x1F2, 0x1F3, 0x250, 0x345, 0x37B, 0x390, 0x3AC, 0x3B1,
+              0x3C2, 0x3C3, 0x3C9, 0x3D0, 0x3D1, 0x3D5, 0x3D6, 0x3F0, 0x3F1, 0x3F5, 0x430, 0x44F, 0x450, 0x45F, 0x561, 0x586,
+              0x587, 0x5FF, 0x600, 0xFFF, 0x1000, 0x10A0, 0x10C5, 0x10D0, 0x10FA, 0x10FB, 0x10FC, 0x10FD, 0x10FF, 0x13A0,
+              0x13EF, 0x13F0, 0x13F5, 0x13F8, 0x13FD, 0x1C80, 0x1C88, 0x1C90, 0x1CBF, 0x1D79, 0x1E01, 0x1E61, 0x1E96, 0x1E9B,
+              0x1E9E, 0x1F00, 0x1F51, 0x1F80, 0x1FB3, 0x1FBE, 0x1FE5, 0x1FF3, 0x2126, 0x212A, 0x212B, 0x214E, 0x2170, 0x217F,
+              0x2184, 0x24D0, 0x24E9, 0x2C30, 0x2C5F, 0x2C61, 0x2C65, 0x2C66, 0x2D00, 0x2D25, 0x2D26, 0x2D27, 0x2D2D, 0x2DFF,
+              0x2E00, 0x3042, 0xA63F, 0xA640, 0xA641, 0xA64B, 0xA7B3, 0xA7FF, 0xA800, 0xAB53, 0xAB69, 0xAB6A, 0xAB70, 0xABBF,
+              0xABC0, 0xD7A3, 0xD800, 0xDFFF, 0xFB00, 0xFEFF, 0xFF00, 0xFF21, 0xFF3A, 0xFF41, 0xFF5A, 0xFFFF, 0x10000, 0x10428,
+              0x1044F, 0x104D8, 0x104FB, 0x10597, 0x105A1, 0x105A2, 0x105B1, 0x105B2, 0x105B9, 0x105BA, 0x105BC, 0x10CC0,
+              0x10CF2, 0x118C0, 0x118DF, 0x16E60, 0x16E7F, 0x1E922, 0x1E943, 0x1F600, 0x10FFFF, 0x110000, 0x110041, 0x1FFFFF,
+              0x7FFFFFFF, 0x80000000, 0x80000041, 0x80000061, 0xFFFFFF41, 0xFFFFFF61, 0xFFFFFFFE, 0xFFFFFFFF]
+
+
+def cased_code_points():
+    """every code point Python's unicodedata (independent of the tree and of libc) knows as a cased letter"""
+    return [c for c in range(0x80, 0x110000) if unicodedata.category(chr(c)) in ("Lu", "Ll", "Lt")]
 
 
 # ------------------------------------------------------------------ generator
@@ -157,6 +199,49 @@ def gen_fn(fn, rng, tier):
             ops.append(mk(fn, chunk + [0], 52))
             ops.append(mk(fn, chunk + [0, X, X], 54))
             ops.append(mk(fn, chunk, 51, tag="unterm-fit"))
+    if fn in WCASE:
+        # slen smaller / equal / larger than the string, terminated or not, every layout (unterm-fit = the array ends at
+        # the guard page with no NUL: `while (*src && slen)` reads src[slen])
+        for s in strings(WC_ALPHA[:5] if quick else WC_ALPHA[:8], 3):
+            for cells, dmax, tag in layouts(s, w):
+                ops.append(mk(fn, cells, dmax, tag=tag))
+        for s in strings(WC_ALPHA, 1 if quick else 2):
+            for cells, dmax, tag in layouts(s, w):
+                ops.append(mk(fn, cells, dmax, tag=tag, flush="l"))
+        s6 = WC_ALPHA[:6]
+        for slen in range(0, 10):                        # one string of 6, every slen around it, object of 8 / exactly slen
+            ops.append(mk(fn, s6 + [0, X], slen, tag="slen-sweep"))
+            if 0 < slen <= 6:
+                ops.append(mk(fn, s6[:slen], slen, tag="unterm-fit"))
+                ops.append(mk(fn, s6[:slen] + [0], slen, tag="unterm-nul-behind"))
+        # the special mappings and every range boundary, 16 to a string
+        for i in range(0, len(WC_SPECIAL), 16):
+            chunk = WC_SPECIAL[i:i + 16]
+            ops.append(mk(fn, chunk + [0], len(chunk) + 1, tag="special"))
+            ops.append(mk(fn, chunk + [0, X, X], len(chunk) + 3, tag="special"))
+            ops.append(mk(fn, chunk + [0, 0x61, 0xE4], len(chunk) + 1, tag="special-roomy"))
+            ops.append(mk(fn, chunk, len(chunk), tag="unterm-fit"))
+        # every cased letter of Unicode once (quick: every third), 256 to a string
+        cased = cased_code_points()
+        if quick:
+            cased = cased[rng.randrange(3)::3]
+        for i in range(0, len(cased), 256):
+            chunk = cased[i:i + 256]
+            ops.append(mk(fn, chunk + [0], len(chunk) + 1, tag="cased"))
+        # object size known, in BYTES: exact, one byte short, one cell short, one byte more, not a multiple of the cell
+        t5 = [0x41, 0x61, 0xE4, 0x3C2, 0]
+        for slen in (1, 2, 5):
+            for bb in sorted({4 * slen - 4, 4 * slen - 1, 4 * slen, 4 * slen + 1, 4 * slen + 4, 1, 3, 20} - {0, -4}):
+                if bb <= 20:
+                    ops.append(mk(fn, t5, slen, bosbytes=bb, tag="bos-bytes"))
+        ops.append(mk(fn, t5, 0, bosbytes=0, tag="bos-bytes"))
+        ops.append(mk(fn, t5, 1, bosbytes=0, tag="bos-bytes"))
+        ops.append(mk(fn, t5, 0, dnull=True, bosbytes=0))
+        ops.append(mk(fn, t5, lim, bosbytes=20, tag="bos-bytes"))          # allowed by the limit, four times the object
+        ops.append(mk(fn, t5, lim + 1, bosbytes=4 * (lim + 1), tag="bos-bytes"))   # above the limit, "fits" the (untruthful) size
+        ops.append(mk(fn, t5, 2 ** 62, bosbytes=20, tag="bos-bytes"))      # slen * sizeof(wchar_t) wraps to 0
+        ops.append(mk(fn, t5, 2 ** 62 + 1, bosbytes=20, tag="bos-bytes"))  # ... wraps to 4
+        ops.append(mk(fn, t5, 2 ** 64 - 1, tag="bos-bytes"))
     if fn in WS:
         for s in strings(WS_ALPHA, 4 if quick else 6):
             for cells, dmax, tag in layouts(s):
@@ -191,6 +276,9 @@ def gen_fn(fn, rng, tier):
             elif fn in CASE:
                 variants = [[(0x41 + i % 26) if i % 3 else (0x61 + i % 26) for i in range(L)],
                             [(0xC0 + i % 32) if i % 2 else (0x5B - (i % 3)) for i in range(L)]]
+            elif fn in WCASE:
+                variants = [[(0x41 + i % 26) if i % 3 else (0x61 + i % 26) for i in range(L)],
+                            [WC_SPECIAL[(7 * i + dmax) % len(WC_SPECIAL)] for i in range(L)]]
             else:
                 variants = [body(L, w, False)]
             for s in variants:
@@ -252,6 +340,8 @@ def gen_fn(fn, rng, tier):
             alpha = [SP, TAB, 0x61, 0x62, NL, 0xA0, SP]
         elif fn in CASE:
             alpha = [0x41, 0x5A, 0x61, 0x7A, 0x40, 0x5B, 0x60, 0x7B, 0xC4, 0xE4, 0x31, 0xFF, 0x80]
+        elif fn in WCASE:
+            alpha = WC_ALPHA + [rng.choice(WC_SPECIAL) for _ in range(6)] + [rng.randrange(1, 0x110000), rng.randrange(1, 0x3000)]
         elif w == 4:
             alpha = [0x61, 0x3B1, 0x10FFFF, 0x80000000, 0xFFFFFFFF, 0x100]
         else:
@@ -286,6 +376,48 @@ def is_ws(c):
     return c in (SP, TAB)
 
 
+_UTF8_UPPER = None
+_UTF8_LOWER = {}                       # filled by utf8_towupper(): towlower() of the same libc and locale
+_TOWUPPER_PROBE = r"""
+#include <wctype.h>
+#include <wchar.h>
+#include <locale.h>
+#include <stdio.h>
+int main(void) {
+    unsigned long c;
+    if (!setlocale(LC_ALL, "C.UTF-8") && !setlocale(LC_ALL, "en_US.UTF-8")) return 2;
+    for (c = 0; c < 0x110000; c++) if ((unsigned long)towupper((wint_t)c) != c) printf("%lx %lx\n", c, (unsigned long)towupper((wint_t)c));
+    for (c = 0; c < 0x110000; c++) if ((unsigned long)towlower((wint_t)c) != c) printf("L %lx %lx\n", c, (unsigned long)towlower((wint_t)c));
+    return 0;
+}
+"""
+
+
+def utf8_towupper():
+    """{c: towupper(c)} of the RUNNING libc in a UTF-8 locale, for the code points it changes: the second reading of
+    "via towupper() ... determined by the LC_CTYPE category" for wcsupr_s.  Independent of the library under test (the
+    probe does not link it).  Without a UTF-8 locale: Python's own simple-case data (single-character str.upper())."""
+    global _UTF8_UPPER
+    if _UTF8_UPPER is None:
+        d = tempfile.mkdtemp(prefix="safec_towupper_")
+        try:
+            open(os.path.join(d, "p.c"), "w").write(_TOWUPPER_PROBE)
+            r = subprocess.run(["gcc", "-O1", "-w", "-o", os.path.join(d, "p"), os.path.join(d, "p.c")], capture_output=True, text=True)
+            out = subprocess.run([os.path.join(d, "p")], capture_output=True, text=True) if r.returncode == 0 else None
+            if out is not None and out.returncode == 0 and out.stdout:
+                rows = [l.split() for l in out.stdout.splitlines()]
+                _UTF8_UPPER = {int(r[0], 16): int(r[1], 16) for r in rows if len(r) == 2}
+                _UTF8_LOWER.update({int(r[1], 16): int(r[2], 16) for r in rows if len(r) == 3})
+            else:
+                _UTF8_LOWER.update({c: ord(chr(c).lower()) for c in range(0x110000)
+                                    if not 0xD800 <= c < 0xE000 and len(chr(c).lower()) == 1 and chr(c).lower() != chr(c)})
+                _UTF8_UPPER = {c: ord(chr(c).upper()) for c in range(0x110000)
+                               if not 0xD800 <= c < 0xE000 and len(chr(c).upper()) == 1 and chr(c).upper() != chr(c)}
+        finally:
+            shutil.rmtree(d, ignore_errors=True)
+    return _UTF8_UPPER
+
+
 def annotate(op):
     m = op.meta
     fn, w, dmax = m["fn"], m["w"], m["dmax"]
@@ -299,6 +431,13 @@ def annotate(op):
     n = m.get("n")
     if n is not None and n < 0:
         n += 1 << 64                                   # rsize_t
+    if fn in WCASE and dmax == 0:
+        # "@retval EOK on successful operation or slen = 0"; "ESNULLP when src is NULL pointer" names the null pointer
+        # with no exception for slen = 0: both answers are documented for (NULL, 0)
+        if m["dest"] is None:
+            opt.add(ESNULLP)
+        m.update(viol=set(), viol_opt=opt, violname="", ref={"cells": [], "keep_tail": True} if m["dest"] is not None else {})
+        return
     if m["dest"] is None:
         viol.add(ESNULLP); names.append("dest-null")
     if dmax == 0:
@@ -340,6 +479,13 @@ def annotate(op):
         elif fn == "strtouppercase_s":
             ref["cells"] = [c_toupper(c) for c in body_] + term
             ref["keep_tail"] = True
+        elif fn == "wcslwr_s":
+            # wchar_t cells as 32-bit patterns; "C" locale: only the ASCII capitals are uppercase characters
+            ref["cells"] = [c_tolower(c) for c in body_] + term
+            ref["keep_tail"] = True
+        elif fn == "wcsupr_s":
+            up = utf8_towupper()
+            ref["wcase"] = dict(c=[c_toupper(c) for c in body_] + term, u=[up.get(c, c) for c in body_] + term)
         elif fn in WS:
             if s is None:
                 # "@retval ESUNTERM when dest was not zero terminated"; dmax == 1 named apart: the code treats
@@ -400,6 +546,32 @@ def o_C06(op, ob, before):
     if ob.fault or not m.get("truthful", True) or m.get("dest") is None:
         return []
     ref = m.get("ref") or {}
+    if "wcase" in ref:
+        # wcsupr_s: per cell either reading of the doc comment; which one is reported apart
+        if ob.reti() != 0:
+            return []
+        k, off = m["dest"]
+        rc, ru = ref["wcase"]["c"], ref["wcase"]["u"]
+        got = ob.img[k][off:off + len(rc)]
+        out = []
+        bad = [i for i, g in enumerate(got) if g != rc[i] and g != ru[i]]
+        # an uppercase letter turned into its lowercase partner is named apart from the other errors of the table
+        for kind, sel in (("lowercased", [i for i in bad if _UTF8_LOWER.get(before[k][off + i]) == got[i]]),
+                          ("other", [i for i in bad if _UTF8_LOWER.get(before[k][off + i]) != got[i]])):
+            if not sel:
+                continue
+            i, bad = sel[0], sel
+            out.append(Fail("C06", "%s:wrong-result:%s" % (op.fn, kind), "at %d: %x -> %x, towupper gives %x (UTF-8 locale) / %x (\"C\" locale); %d such cells: %s" % (
+                i, before[k][off + i], got[i], ru[i], rc[i], len(bad), ",".join("%x->%x" % (before[k][off + j], got[j]) for j in bad[:12]))))
+        loc = [i for i, g in enumerate(got) if g != rc[i] and g == ru[i]]
+        if loc:
+            i = loc[0]
+            out.append(Fail("C06", "%s:locale-ignored" % op.fn, "at %d: %x -> %x in the \"C\" locale" % (i, before[k][off + i], got[i])))
+        got_t, want_t = ob.img[k][off + len(rc):off + m["dmax"]], before[k][off + len(rc):off + m["dmax"]]
+        if got_t != want_t:
+            i = next(i for i, (a, b) in enumerate(zip(got_t, want_t)) if a != b)
+            out.append(Fail("C06", "%s:changed-behind-result" % op.fn, "at %d got %x was %x" % (len(rc) + i, got_t[i], want_t[i])))
+        return out
     if "cells" not in ref:
         return []
     if m.get("retkind") == "e" and ob.reti() != 0:
